@@ -53,10 +53,11 @@ def odd_spellings() -> list[dict[str, Any]]:
     """Source spellings the printer of the generated space never produces: names written as quoted strings, names that
     are keywords or end in a line feed, integer path roots, keyword paths inside brackets, one-item array literals,
     empty blocks whose tags carry whitespace control, the largest printable integer literals."""
-    names = ["a b", "with", "it's", 'q"q', "", "apple\n", "café", "x-y", "true", "for", "0", "a.b", "${x}"]
+    names = ["a b", "with", "it's", 'q"q', "", "apple\n", "café", "x-y", "true", "for", "0", "a.b", "${x}", "\U0001f600", "a\U0001f600", "\U00020bb7x", "\U0010ffff", "\uffff", "\x80"]
     templates = {"p": "[{{ ['a b'] }}{{ x }}{{ with }}{{ ['apple\n'] }}]", "base": "<{% block 'a b' %}B{% endblock %}{% block c %}C{% endblock %}>"}
     data = {"arr": [1, 2], "xs": [1, 2, 3], "g": 1, "true": "T", "for": "k", "h": {"k": "hk", "apple": "A", "apple\n": "AN", "T": "hT", "0": "zero"},
-            "a b": "AB", "apple": "a1", "apple\n": "a2", "with": "W", "0": "root-zero"}
+            "a b": "AB", "apple": "a1", "apple\n": "a2", "with": "W", "0": "root-zero", "\U0001f600": "smile", "a\U0001f600": "asmile", "\U00020bb7x": "cjk", "\U0010ffff": "max", "\uffff": "bmpmax", "\x80": "c1"}
+    data["h"].update({"\U0001f600": "hsmile", "a\U0001f600": "hasmile", "\U00020bb7x": "hcjk", "\U0010ffff": "hmax", "\uffff": "hbmpmax", "\x80": "hc1", "café": "hcafe"})
     srcs: list[str] = []
     for nm in names:
         q = "'" + nm.replace("\\", "\\\\").replace("'", "\\'").replace("\n", "\\n") + "'"
@@ -68,6 +69,8 @@ def odd_spellings() -> list[dict[str, Any]]:
             "{% render 'p' for xs as " + q + " %}", "{% include 'p' with g as " + q + " %}", "{% render 'p' with g as " + q + " %}",
             "{% cycle " + q + ": 1, 2 %}{% cycle 1, 2 %}{% cycle " + q + ": 1, 2 %}",
             "{{ [" + q + "] }}{{ h[" + q + "] }}{{ h[" + q + "].size }}{{ [" + q + "][0] }}",
+            # (a liquid tag is serialised from its tokens, not from the syntax tree)
+            "{% liquid echo [" + q + "]\necho h[" + q + "]\necho h[" + q + "].size\necho h.k[" + q + "] %}", "{% liquid echo 'got ${h[" + q + "]} ${[" + q + "]}'\nassign z = h[" + q + "] | default: [" + q + "]\necho z %}",
         ]
     srcs += [
         "{{ [0] }}{{ [0].a }}{{ [1][2] }}{{ h[0] }}{{ [-1] }}", "{{ h[true] }}{{ h[for] }}{{ h[for][true] }}{{ arr[nil] }}{{ h[empty] }}{{ h[with].x }}", "{{ [true] }}{{ [for].size }}",
